@@ -19,6 +19,7 @@ def mc_params(c):
 
 def check_C01(c):
     mc_params(c)
+    mc_lz(c, ("lazy", "greedy", "rle") if thorough(c) else ("greedy",))
     c.scenario("oneshot")
     return c.finish("model_checking",
                     "one case = one (input, level, format) one-shot compression; the output is parsed token by token by the TLA+ RFC 1951/1950 acceptor against the input and the crate's own decoder result is compared; non-trivial = every case (distinct by construction: level x family x size)",
@@ -36,6 +37,7 @@ def check_C09(c):
 
 def check_C10(c):
     mc_params(c)
+    mc_lz(c, ("rle",))
     c.scenario("configs_c10")
     return c.finish("model_checking",
                     "one case = one compressor configuration on data built to tempt the forbidden token kinds; acceptor token statistics are checked against what DeflateParams says the requested level/strategy requires",
@@ -130,15 +132,24 @@ def mc_deflate_core(c):
         c.model_check("MC_DeflateCore", "MC_DeflateCore_%s%s.cfg" % (z, "_big" if thorough(c) else ""), workers=6)
 
 
+def mc_lz(c, variants):
+    """the match finder's ring / mirror / look-ahead / history model (DeflateLZ.tla); its StateRules
+    are the ones the trace specification evaluates on the real compressor's state (hook)"""
+    for v in variants:
+        c.model_check("MC_DeflateLZ", "MC_DeflateLZ_%s%s.cfg" % (v, "" if thorough(c) else "_quick"), workers=8 if thorough(c) else 6)
+
+
 def check_C02(c):
     mc_params(c)
     mc_deflate_core(c)
+    mc_lz(c, ("lazy", "rle"))
     c.scenario("streamcomp")
     return c.finish("model_checking", RULE_COMP, TRUST)
 
 
 def check_C12(c):
     mc_deflate_core(c)
+    mc_lz(c, ("lazy",))
     c.scenario("flushes")
     return c.finish("model_checking", RULE_COMP, TRUST)
 
